@@ -288,6 +288,15 @@ def judge_cmap(ck, site, group, res, meta, final, via="res"):
     observed = set()
     outside = []
     for e in res["events"]:
+        if e["ev"] in ("os.listdir", "os.scandir", "os.walk", "os.fwalk", "glob.glob", "glob.glob/2"):
+            # a directory listing: allowed only of a resource directory (or below it)
+            reg, rel = region_of((e.get("real") or e.get("path") or ".") + "/.", root, res["input"], meta["cmap_dir"])
+            real = e.get("real") or ""
+            inside_res = real == os.path.realpath(meta["cmap_dir"]) or reg in ("res", "pkg") \
+                or real == os.path.join(os.path.realpath(root), "res")
+            if not inside_res and reg != "code":
+                outside.append(("list", reg, rel))
+            continue
         if e["ev"] != "open":
             outside.append(("event", e["ev"], str(e.get("args"))[:120]))
             continue
@@ -464,11 +473,20 @@ def direction_b(ck, dev):
         case_root = jobs[k]["root"]
         evs = []
         for e in r["events"]:
-            kind = {"open": "write" if e.get("write") else "read", "os.mkdir": "mkdir"}.get(e["ev"], "other:" + e["ev"])
+            kind = {"open": "write" if e.get("write") else "read", "os.mkdir": "mkdir", "os.listdir": "list", "os.scandir": "list"}.get(e["ev"], "other:" + e["ev"])
             path = e.get("path") if e["ev"] == "open" else (e.get("args") or [None])[0]
             if not isinstance(path, str):
                 path = repr(path)
-            reg, rel = region_of(path, case_root, fn, meta["cmap_dir"])
+            if kind == "list":
+                path = e.get("real") or e.get("path") or path
+                rp = os.path.realpath(path)
+                if rp.startswith((os.path.realpath(sys.prefix), os.path.realpath(sys.base_prefix))) or "/site-packages" in rp \
+                        or rp.startswith(os.path.dirname(os.path.realpath(meta["cmap_dir"]))) and rp != os.path.realpath(meta["cmap_dir"]):
+                    reg, rel = "code", rp                    # the import system listing a package directory
+                else:
+                    reg, rel = region_of(os.path.join(rp, "x"), case_root, fn, meta["cmap_dir"])
+            else:
+                reg, rel = region_of(path, case_root, fn, meta["cmap_dir"])
             reg = {"pkg": "res", "root": "outside", "unnameable": "outside"}.get(reg, reg)
             evs.append({"k": kind, "region": reg, "existed": bool(e.get("existed")), "path": rel if reg == "out" else path})
         traces.append({"name": os.path.relpath(fn, "/repo"), "events": evs, "exc": r["exc"] or "none", "created": r["created"]})
